@@ -3,5 +3,5 @@ Require Import Pk.RegexProg Pk.Regex Pk.DataFilter.
 Require Extraction.
 Require Import ExtrOcamlBasic.
 Extraction "c04_model.ml"
-  mkInst mkProg mkFacts mkRx mkElem mkCond mkStream
-  stream_selected stream_spec any_bad search prog_prefix accepted_length_cached constant_suffix_b assertion_free wf find.
+  mkInst mkProg mkFacts mkRx mkElem mkCond mkStream EFixed ESubst
+  stream_selected stream_spec first_err search prog_prefix accepted_length_cached constant_suffix_b assertion_free wf find.
